@@ -158,7 +158,13 @@ func (f *FixedUintField) GenReadFrom() (string, error) {
 			g.printlnf("if err == io.EOF {")
 			g.printlnf("err = io.ErrUnexpectedEOF")
 			g.printlnf("}")
-			g.printlnf("value.%s = &reader.Range(reader.Pos()-1, reader.Pos())[0][0]", f.name)
+			g.printlnf("if err == nil {")
+			g.printlnf("if byteRange := reader.Range(reader.Pos()-1, reader.Pos()); len(byteRange) == 1 && len(byteRange[0]) == 1 {")
+			g.printlnf("value.%s = &byteRange[0][0]", f.name)
+			g.printlnf("} else {")
+			g.printlnf("err = io.ErrUnexpectedEOF")
+			g.printlnf("}")
+			g.printlnf("}")
 		} else {
 			g.printlnf("tempVal := %s(0)", digit)
 			gen("tempVal")
